@@ -164,3 +164,40 @@ def c04_index_cleanup(ctx, v):
     add_block_failure) removes exactly the rejected (id, hash) — see c03_m_blockring_delete."""
     from . import obl_c03
     obl_c03.c03_m_blockring_delete(ctx, v)
+
+
+def c04_rejected_block_writes_nothing(ctx, v):
+    """Blockchain::add_block, every path that hands the block back before the fork-choice step
+    (metadata generation failed, block already stored, parent missing -> FailedButRetry in its
+    three forms, too old -> FailedNotValid): the chain index and the block store are not written
+    on that path — no BlockRing::add_block / on_chain_reorganization / delete_block, no insertion
+    into or removal from `blocks`.  Real MIR of the body; the chain state's observers (tip,
+    parent stored, already stored, loading completed...) are symbolic inputs."""
+    from . import addblock_explore as AB
+    r = AB.explore(ctx)
+    ex = r["ex"]
+    v.paths += len(r["outs"])
+    n = 0
+    for o in r["outs"]:
+        if o.kind in ("unsupported", "path-limit"):
+            return v.undecided("%s %s" % (o.kind, o.info))
+        if o.kind != "return":
+            continue
+        res = L.ready_value(ex, o)
+        w = AB.writes(o)
+        v.queries += 1
+        if w:
+            rr, m = ex.model_for(o.pc)
+            if rr == z3.sat:
+                variant = getattr(res, "variant", None)
+                v.fail("add_block hands the block back (%s) after writing to the chain index / block store: %s" % (variant or "early return", ", ".join(e[1].split("::")[-1] for e in w)),
+                       dict(path=L.trace_text(o, 12), parent_stored=str(m.eval(r["parent_known"], model_completion=True)), block_id=m.eval(r["b_id"].bv, model_completion=True).as_long(),
+                            tip_id=m.eval(r["tip_id"].bv, model_completion=True).as_long()))
+            elif rr != z3.unsat:
+                return v.undecided("solver: no verdict")
+            continue
+        n += 1
+    if not n:
+        return v.undecided("no early-return path found")
+    v.covers_total += 1
+    v.covers_sat += 1
